@@ -454,6 +454,13 @@ def conv(ctx, v, kind):
             return Num("float", real(v))       # small ints are exact in float (|v|<2^24 by bound)
         return Num("float", ctx.rf(v.t))
     if kind == "int":
+        if v.kind in ("double", "float"):
+            # a floating value outside the range of int: the conversion is undefined behaviour (the machine stores INT_MIN);
+            # modelled as an arbitrary int ('garb*' constants are what the encoder cross-check treats as unpredictable)
+            ctx.n_intconv = getattr(ctx, "n_intconv", 0) + 1
+            junk = z3.Int(f"garb_intconv_{id(ctx) % 100000}_{ctx.n_intconv}")
+            lim = z3.RealVal(1 << 31)
+            return Num("int", z3.If(z3.And(v.t > -lim - 1, v.t < lim), trunc_to_int(v.t), junk))
         return Num("int", toint(v))
     if kind == "bool":
         return Num("bool", tobool(v))
